@@ -61,7 +61,7 @@ Fresh(p, s0) ==
         cur |-> [op |-> "none"], expect |-> "", stack |-> <<>>, fn |-> <<>>,
         structs |-> <<>>, order |-> <<>>, cap |-> p.lru_cap, handed |-> {},
         dropped |-> {}, evNow |-> {}, pend |-> {}, noC03 |-> FALSE, panics |-> 0,
-        panicRev |-> 0, injRev |-> 0, wpend |-> [op |-> "none"], applied |-> FALSE, injNow |-> FALSE, mode |-> "", last |-> 0, cyc |-> HasCyc(p), inject |-> 0, injected |-> FALSE, s0 |-> s0,
+        restores |-> 0, panicRev |-> 0, injRev |-> 0, wpend |-> [op |-> "none"], applied |-> FALSE, injNow |-> FALSE, mode |-> "", last |-> 0, cyc |-> HasCyc(p), inject |-> 0, injected |-> FALSE, s0 |-> s0,
         idv |-> <<>>, itn |-> <<>>, iq |-> <<<<1>>, <<1, 1>>, <<1, 1, 1>>>>, canon |-> <<>>, canonRev |-> 0, prevId |-> <<>>]
 
 K0 == [has |-> FALSE, v |-> -1, hs |-> <<>>, is |-> <<>>, s |-> 0, deps |-> <<>>, untr |-> FALSE,
@@ -336,7 +336,7 @@ OnWe ==
         f == Fn(k)
         judge == ~st.noC03 /\ ~st.cyc /\ st.inject = 0
     IN
-    /\ judge => Check("C03", ExecJustified(k), <<"re-executed although nothing it read changed", k, f.deps, f.lastVal, st.rev>>)
+    /\ judge => CheckAll(IF st.mode = "persist" THEN {"C03", "C26"} ELSE {"C03"}, ExecJustified(k), <<"re-executed although nothing it read changed", k, f.deps, f.lastVal, st.rev>>)
     /\ (judge /\ st.cap = 0 /\ ~(\E j \in 1..Len(P.fns) : P.fns[j].kind = "lru")) =>
           Check("C17", f.execRev < st.rev, <<"executed twice in one revision", k, st.rev>>)
     /\ (ev.km = 3 /\ ~st.cyc) =>
@@ -440,7 +440,7 @@ OnBe ==
     LET fr == Top
         k == fr.k
         f == Fn(k)
-        noeq == fr.kj > 0 /\ KindJ(fr.kj) = "noeq"
+        noeq == fr.kj > 0 /\ KindJ(fr.kj) \in {"noeq", "pnoeq"}
         newdur == fr.dmin
         changed == \/ ~f.has \/ f.evicted \/ f.v # ev.v \/ f.hs # ev.hs \/ f.is # ev.is \/ noeq
                    \/ newdur < 0 \/ f.dur < 0 \/ newdur < f.dur
@@ -556,13 +556,32 @@ OnInt ==
                                      !.prevId = PutMap(st.prevId, key, [ix |-> ev.ix, gn |-> ev.gn]),
                                      !.idv = PutMap(st.idv, ev.id, ev.v)]
 
+\* the database was serialized, dropped and restored into a fresh one: memos of functions that are not
+\* persisted are gone, persisted ones are kept (C26)
+RECURSIVE FlatDeps(_, _)
+\* dependencies of a restored memo: serialization flattens edges through functions that are not persisted
+\* (and may keep edges to the inputs read below persisted ones), so a restored result is only required to be
+\* reused if none of its transitive inputs was written (C26); the direct dependencies are kept as well
+FlatDeps(k, n) ==
+    LET ds == Fn(k).deps
+        One(d) == IF n > 0 /\ d.t = "fn" THEN <<d>> \o FlatDeps(d.k, n - 1) ELSE <<d>>
+        RECURSIVE Cat(_)
+        Cat(i) == IF i > Len(ds) THEN <<>> ELSE One(ds[i]) \o Cat(i + 1)
+    IN Cat(1)
+
+OnRestored ==
+    st' = [st EXCEPT !.fn = [k \in DOMAIN st.fn |->
+              IF st.fn[k].kj > 0 /\ KindJ(st.fn[k].kj) = "pnp" THEN [st.fn[k] EXCEPT !.has = FALSE]
+              ELSE [st.fn[k] EXCEPT !.deps = FlatDeps(k, 6)]],
+              !.handed = {}, !.restores = st.restores + 1]
+
 OnInject == st' = [st EXCEPT !.injected = TRUE, !.noC03 = TRUE, !.injNow = TRUE, !.injRev = st.rev]
 
 OnDbDropBegin == st' = [st EXCEPT !.handed = {}, !.cur = [op |-> "dbdrop"]]
 
 \* every value created during the job has been dropped exactly once when the database is gone
 OnDbDropEnd ==
-    /\ Check("C23", Cardinality(st.dropped) = ev.s1 - st.s0,
+    /\ (st.mode # "persist") => Check("C23", Cardinality(st.dropped) = ev.s1 - st.s0,
              <<"values leaked at database drop", ev.s1 - st.s0 - Cardinality(st.dropped)>>)
     /\ st' = st
 
@@ -594,6 +613,7 @@ TraceNext ==
          [] ev.e = "retained" -> OnRetained
          [] ev.e = "dd" -> OnDd
          [] ev.e = "specv" -> OnSpecv
+         [] ev.e = "restored" -> OnRestored
          [] ev.e = "wproc" -> OnWproc
          [] ev.e = "irec" -> OnIrec
          [] ev.e = "div" -> OnDiv
